@@ -544,8 +544,9 @@ def posted_two(sc):
     vs1 = [s.bool_var() for _ in range(n)]
     with cfg_prim(False):
         active_vertices_connected(s, vs1, H.advance(sc["cut"]), acyclic=sc["acyclic"][0])
-        g2 = graphcap.mk_graph(n, es2) if sc["mode"] == "two-graphs" else H.finish()
-        vs2 = vs1 if sc["same_vars"] else [s.bool_var() for _ in range(n)]
+        n2 = sc.get("n2", n)
+        g2 = graphcap.mk_graph(n2, es2) if sc["mode"] == "two-graphs" else H.finish()
+        vs2 = vs1 if sc["same_vars"] else [s.bool_var() for _ in range(n2)]
         active_vertices_connected(s, vs2, g2, acyclic=sc["acyclic"][1])
     return s, vs1, vs2
 
@@ -728,7 +729,7 @@ def search(ctx):
                 continue  # 'tree' is read on loop-free graphs (see ASSUMPTIONS)
             ctx.count("search-graphs:" + kind)
             run_patterns(kind, n, es, acyclic, pats)
-            if kind in ("small", "loops") and es:
+            if kind in ("small", "loops") and es and (ctx.thorough or ctx.deep or rng.random() < 0.6):
                 # the same graph stored differently ((larger, smaller), mixed, other order); as a Graph object that
                 # was already used while it had fewer edges; with the options / container spelled differently
                 c = rng.randrange(3)
@@ -746,7 +747,7 @@ def search(ctx):
                                  opts=rand_opts(acyclic))
     # cycles closed by a reversed edge / made of reversed or parallel edges: fresh, and with the closing edge added
     # to a Graph object that was already used as a path
-    for name, n, es in graphcap2.reversed_cycles(8 if ctx.thorough else 7):
+    for name, n, es in graphcap2.reversed_cycles(8 if ctx.thorough else (7 if ctx.deep else 6)):
         for acyclic in (False, True):
             ctx.count("search-graphs:reversed-cycles")
             run_patterns("revcycle", n, es, acyclic, None, how="vars")
@@ -836,20 +837,22 @@ def search(ctx):
 
     # two calls on ONE Solver (two graphs, or one Graph object before / after add_edge, or the same graph twice;
     # separate or the SAME is_active variables): satisfiable iff both calls' patterns are accepted
-    for _ in range(200 if ctx.thorough else (100 if ctx.deep else 50)):
+    for _ in range(200 if ctx.thorough else (100 if ctx.deep else 36)):
         n = rng.randint(2, 4)
         es = graphcap2.mixed_orientation(rng, rng.choice([e for (k, e) in graphcap.all_multigraphs(n, 4) if k == n and e]))
         mode = rng.choice(["extended", "two-graphs", "twice"])
         same_vars = rng.random() < 0.4
         acy = [rng.random() < 0.5, rng.random() < 0.5]
         cut = rng.randrange(len(es)) if mode == "extended" else len(es)
+        n2 = rng.randint(1, 4) if mode == "two-graphs" and not same_vars else n
         es2 = es if mode != "two-graphs" else graphcap2.mixed_orientation(
-            rng, rng.choice([e for (k, e) in graphcap.all_multigraphs(n, 4) if k == n]))
-        scen = {"two_calls": True, "n": n, "edges": es, "cut": cut, "edges2": es2, "mode": mode, "same_vars": same_vars,
-                "acyclic": acy}
+            rng, rng.choice([e for (k, e) in graphcap.all_multigraphs(n2, 4) if k == n2]))
+        scen = {"two_calls": True, "n": n, "edges": es, "cut": cut, "n2": n2, "edges2": es2, "mode": mode,
+                "same_vars": same_vars, "acyclic": acy}
         r = vlib.guarded(posted_two, scen)
-        key = "avc:two-calls:%s:n=%d:e=%s:cut=%d:e2=%s:same=%d:acyclic=%d%d" % (
-            mode, n, ",".join("%d-%d" % e for e in es), cut, ",".join("%d-%d" % e for e in es2), same_vars, acy[0], acy[1])
+        key = "avc:two-calls:%s:n=%d:e=%s:cut=%d:n2=%d:e2=%s:same=%d:acyclic=%d%d" % (
+            mode, n, ",".join("%d-%d" % e for e in es), cut, n2, ",".join("%d-%d" % e for e in es2), same_vars,
+            acy[0], acy[1])
         ctx.count("search-graphs:two-calls-" + mode + ("-same-vars" if same_vars else ""))
         if r[0] == "err":
             ctx.violation(key + ":raises", "active_vertices_connected raises on the second call on one Solver",
@@ -861,8 +864,8 @@ def search(ctx):
             continue
         check = graphcap.z3_session(s)
         for p1 in graphcap.patterns(n):
-            for p2 in ([p1] if same_vars else graphcap.patterns(n)):
-                want = oracle(n, es[:cut], acy[0], p1) and oracle(n, es2, acy[1], p2)
+            for p2 in ([p1] if same_vars else graphcap.patterns(n2)):
+                want = oracle(n, es[:cut], acy[0], p1) and oracle(n2, es2, acy[1], p2)
                 got = check(list(zip(vs1, p1)) + ([] if same_vars else list(zip(vs2, p2))))
                 ctx.prop_case("two-calls-sat-vs-oracle", (key, p1, p2))
                 if got != want:
@@ -959,7 +962,7 @@ def replay(ctx, rp):
         p2 = [bool(b) for b in v["pattern2"]]
         es, es2 = [tuple(e) for e in v["edges"]], [tuple(e) for e in v["edges2"]]
         got = graphcap.sat_with(s, list(zip(vs1, pat)) + ([] if v["same_vars"] else list(zip(vs2, p2))))
-        want = oracle(v["n"], es[:v["cut"]], v["acyclic"][0], pat) and oracle(v["n"], es2, v["acyclic"][1], p2)
+        want = oracle(v["n"], es[:v["cut"]], v["acyclic"][0], pat) and oracle(v.get("n2", v["n"]), es2, v["acyclic"][1], p2)
         print("satisfiable:", got, " oracle:", want)
         return 1 if got != want else 0
     n, es = v["n"], [tuple(e) for e in v["edges"]]
